@@ -340,7 +340,7 @@ func c11Verify(res *vlib.Result, label, class, tok string) {
 func C11Plan() *vlib.Plan {
 	p := &vlib.Plan{
 		Property: "C11", Level: "fault_enumeration",
-		Rule: "E-FAULT: (1) 20 token variants and every single-bit flip of a valid token string, each through a real client/server TOKEN handshake (no cipher, so the AKEP2 result is the result); (2) for each of the three AKEP2 messages: every byte offset (header and payload) x {^01,^80}, truncation at every 8th byte, 1/8 trailing bytes appended, and for step 1 a field-aware substitution of the claimed client identity by {bob, empty, +1 char}; (3) VerifyIDToken on the same variants and bit flips. Oracle: independent HKDF+HMAC verifier with the same time rules (variants sit 120 s away from the limits); server success => token valid and no client message altered outside the claimed-identity field; client success => server message unaltered; recorded user = token subject. Non-trivial = the mutated element reached the receiving side.",
+		Rule:   "E-FAULT: (1) 20 token variants and every single-bit flip of a valid token string, each through a real client/server TOKEN handshake (no cipher, so the AKEP2 result is the result); (2) for each of the three AKEP2 messages: every byte offset (header and payload) x {^01,^80}, truncation at every 8th byte, 1/8 trailing bytes appended, and for step 1 a field-aware substitution of the claimed client identity by {bob, empty, +1 char}; (3) VerifyIDToken on the same variants and bit flips. Oracle: independent HKDF+HMAC verifier with the same time rules (variants sit 120 s away from the limits); server success => token valid and no client message altered outside the claimed-identity field; client success => server message unaltered; recorded user = token subject. Non-trivial = the mutated element reached the receiving side.",
 		Assume: []string{"base64 decoding is shared with the code (non-canonical trailing bits that decode identically are the same token)", "time-dependent variants are 120 s away from the boundary"},
 	}
 	p.Gen = func(tier string, yield func(vlib.Case)) {
